@@ -50,7 +50,11 @@ POSITIONS = {
     "dead_nested": "def f(a, b):\n    x = 0\n    return x\n    if a:\n        x = 1\n    else:\n{S2}\n",
     "nested_deep": "def f(a, b):\n    x = 0\n    while x < a:\n        if b:\n            for i in range(a):\n{S4}\n        x += 1\n    return x\n",
 }
-# ---- composed positions: every nesting of up to two contexts, the statement first / last in the innermost suite
+# ---- the position grammar of Unsupported.tla, mirrored (TLC certifies that both sides build the same set) ----
+CTX = ["if", "else", "elif", "while", "whileelse", "for", "forelse"]
+TERMS = ["-", "ret", "brk", "cnt"]
+BEFORE = ["none", "simple", "if", "loop"]
+AFTER = ["none", "simple"]
 CONTEXTS = {
     "if": "if a:\n{B}\nelse:\n    x = 3",
     "else": "if a:\n    x = 3\nelse:\n{B}",
@@ -60,19 +64,43 @@ CONTEXTS = {
     "for": "for i in range(a):\n{B}\n    x += i",
     "forelse": "for i in range(a):\n    x += i\nelse:\n{B}",
 }
+T_SRC = {"-": [], "ret": ["return x"], "brk": ["break"], "cnt": ["continue"]}
+P_SRC = {"none": [], "simple": ["x = 5"], "if": ["if b:\n    x = 6"], "loop": ["while x < b:\n    x += 2"]}
+A_SRC = {"none": [], "simple": ["x = 7"]}
 
 
-def composed_positions():
-    out = {}
-    names = list(CONTEXTS)
-    for c1 in names:
-        for c2 in [None] + names:
-            for where in ("only", "before", "after"):
-                inner = {"only": "{S}", "before": "{S}\nx = 7", "after": "x = 7\n{S}"}[where]
-                body = CONTEXTS[c2].replace("{B}", textwrap.indent(inner, "    ")) if c2 else inner
-                whole = CONTEXTS[c1].replace("{B}", textwrap.indent(body, "    "))
-                out["%s/%s/%s" % (c1, c2 or "-", where)] = "def f(a, b):\n    x = 0\n" + textwrap.indent(whole, "    ") + "\n    return x\n"
-    return out
+def steps_of(ctxs):
+    return [(c, t, p, a) for c in ctxs for t in TERMS for p in BEFORE for a in AFTER]
+
+
+def valid(path):
+    for j, st in enumerate(path):
+        if st[1] in ("brk", "cnt") and not any(q[0] in ("while", "for") for q in path[1: j + 1]):
+            return False
+    return True
+
+
+def positions(depth):
+    level = [(s,) for s in steps_of(["fn"])]
+    out = list(level)
+    for _ in range(depth):
+        level = [p + (s,) for p in level for s in steps_of(CTX)]
+        out += level
+    return [p for p in out if valid(p)]
+
+
+def path_name(path):
+    return "/".join(":".join(st) for st in path)
+
+
+def build(path, snippet):
+    item = snippet
+    for ctx, t, p, a in reversed(path):
+        block = "\n".join(T_SRC[t] + P_SRC[p] + [item] + A_SRC[a])
+        if ctx == "fn":
+            return "def f(a, b):\n" + textwrap.indent(block, "    ") + "\n"
+        item = CONTEXTS[ctx].replace("{B}", textwrap.indent(block, "    "))
+    raise AssertionError("path without a function step")
 
 
 CONTROL = [
@@ -94,11 +122,11 @@ NON_FUNCTION = {
 }
 
 
-def classify(src: str):
+def _outcome(arg):
     from numba_scfg.core.datastructures.ast_transforms import AST2SCFG
 
     try:
-        AST2SCFG(src)
+        AST2SCFG(arg)
         return "graph", ""
     except NotImplementedError as e:
         return "refused", exc_sig(e)
@@ -106,71 +134,176 @@ def classify(src: str):
         return "internal", exc_sig(e)
 
 
+def classify(src: str, form: str = "str"):
+    if form == "str":
+        return _outcome(src)
+    if form == "ast":
+        return _outcome(ast.parse(src).body)
+    raise AssertionError(form)
+
+
+def _compiles(src: str) -> bool:
+    try:
+        compile(src, "<c11>", "exec")
+        return True
+    except SyntaxError:
+        return False
+
+
+def _grid_work(task):
+    """One shard: the given kinds x all positions, in every form. Returns the records."""
+    kinds, depth, calldepth, workdir, tag = task
+    import importlib.util
+
+    pos = positions(depth)
+    recs, srcs = [], {}
+    modlines, fnames = [], {}
+    for k in kinds:
+        for path in pos:
+            src = build(path, SNIPPET[k])
+            try:
+                ast.parse(src)
+            except SyntaxError as e:
+                raise tlc.MachineryError("grammar produced text that does not parse: %s / %s: %s" % (k, path_name(path), e))
+            out = {"str": classify(src, "str")[0], "ast": classify(src, "ast")[0]}
+            if len(path) - 1 <= calldepth:
+                if _compiles(src):
+                    fn = "f_%d" % len(fnames)
+                    fnames[(k, path)] = fn
+                    modlines.append(src.replace("def f(a, b):", "def %s(a, b):" % fn, 1))
+                    out["callable"] = "?"
+                else:
+                    out["callable"] = "n/a"
+            recs.append({"kind": k, "path": path_name(path), "out": out})
+            srcs[(k, path_name(path))] = src
+    if fnames:
+        mp_ = os.path.join(workdir, "c11mod_%s.py" % tag)
+        with open(mp_, "w") as f:
+            f.write("\n\n".join(modlines))
+        spec = importlib.util.spec_from_file_location("c11mod_%s" % tag, mp_)
+        mod = importlib.util.module_from_spec(spec)
+        spec.loader.exec_module(mod)
+        byname = {(r["kind"], r["path"]): r for r in recs}
+        for (k, path), fn in fnames.items():
+            byname[(k, path_name(path))]["out"]["callable"] = _outcome(getattr(mod, fn))[0]
+    return recs
+
+
+CALLABLE_NON_FUNCTION = "class K:\n    def m(self):\n        return 1\n\n\ng = lambda a: a\n"
+
+
 def main(argv):
+    import multiprocessing as mp
+
     args = parse_args(PROP, argv)
     rep = Report(PROP, args.tier, args.seed, "model_checking")
+    quick = args.tier == "quick"
     kinds = sorted(n for n, c in vars(ast).items() if isinstance(c, type) and issubclass(c, ast.stmt) and c is not ast.stmt and n not in SUPPORTED) + ["FunctionDef"]
     missing = [k for k in kinds if k not in SNIPPET]
     if missing:
         raise tlc.MachineryError("no snippet for statement kinds %s of this interpreter" % missing)
-    cases = []
-    composed = composed_positions()
-    allpos = dict(POSITIONS)
-    allpos.update(composed)
-    for k in kinds:
-        for pos, tmpl in allpos.items():
-            if pos in composed:
-                # substitute the snippet at the indentation of the placeholder
-                lines = []
-                for ln in tmpl.split("\n"):
-                    if "{S}" in ln:
-                        ind = ln[: len(ln) - len(ln.lstrip())]
-                        lines += [ind + x for x in SNIPPET[k].split("\n")]
-                    else:
-                        lines.append(ln)
-                src = "\n".join(lines)
-            else:
-                src = tmpl.format(S1=textwrap.indent(SNIPPET[k], "    "), S2=textwrap.indent(SNIPPET[k], "        "), S4=textwrap.indent(SNIPPET[k], "                "))
-            try:
-                ast.parse(src)
-            except SyntaxError as e:
-                raise tlc.MachineryError("template does not parse: %s / %s: %s" % (k, pos, e))
-            out, exc = classify(src)
-            cases.append({"kind": k, "pos": pos, "unsupported": True, "outcome": out, "exc": exc, "src": src})
-    for i, src in enumerate(CONTROL):
-        out, exc = classify(src)
-        cases.append({"kind": "control-%d" % i, "pos": "none", "unsupported": False, "outcome": out, "exc": exc, "src": src})
-    for k, src in NON_FUNCTION.items():
-        out, exc = classify(src)
-        cases.append({"kind": k, "pos": "input", "unsupported": True, "outcome": out, "exc": exc, "src": src})
     if args.replay:
         rep.replay_only = args.replay
     d = rb.workdir(PROP)
     try:
-        p = os.path.join(d, "cases.json")
+        # ---- grid: kinds x Positions(depth) x forms; thorough adds depth 2 for three representative kinds ----
+        shards = [([k], 1, 0 if quick else 1, d, k) for k in kinds]
+        if not quick:
+            shards += [([k], 2, 0, d, k + "-deep") for k in ("Raise", "With", "FunctionDef")]
+        ctx = mp.get_context("fork")
+        with ctx.Pool(args.jobs) as pool:
+            grids = pool.map(_grid_work, shards)
+        # ---- extras: named templates, control programs, non-function inputs ----
+        extra = []
+        for k in kinds:
+            for pos, tmpl in POSITIONS.items():
+                src = tmpl.format(S1=textwrap.indent(SNIPPET[k], "    "), S2=textwrap.indent(SNIPPET[k], "        "), S4=textwrap.indent(SNIPPET[k], "                "))
+                try:
+                    ast.parse(src)
+                except SyntaxError as e:
+                    raise tlc.MachineryError("template does not parse: %s / %s: %s" % (k, pos, e))
+                for form in ("str", "ast"):
+                    out, exc = classify(src, form)
+                    extra.append({"kind": k, "pos": pos, "form": form, "unsupported": True, "outcome": out, "exc": exc, "src": src})
+        controls_refused = 0
+        for i, src in enumerate(CONTROL):
+            out, exc = classify(src)
+            controls_refused += out != "graph"
+            extra.append({"kind": "control-%d" % i, "pos": "none", "form": "str", "unsupported": False, "outcome": out, "exc": exc, "src": src})
+        for k, src in NON_FUNCTION.items():
+            for form in ("str", "ast"):
+                if form == "ast" and not ast.parse(src).body:
+                    continue
+                out, exc = classify(src, form)
+                extra.append({"kind": k, "pos": "input", "form": form, "unsupported": True, "outcome": out, "exc": exc, "src": src})
+        import importlib.util
+
+        mp_ = os.path.join(d, "c11nonfn.py")
+        with open(mp_, "w") as f:
+            f.write(CALLABLE_NON_FUNCTION)
+        spec = importlib.util.spec_from_file_location("c11nonfn", mp_)
+        mod = importlib.util.module_from_spec(spec)
+        import sys
+
+        sys.modules["c11nonfn"] = mod          # inspect.getsource of a class looks its module up by name
+        spec.loader.exec_module(mod)
+        for k, obj in (("class-object-input", mod.K), ("lambda-input", mod.g)):
+            out, exc = _outcome(obj)
+            extra.append({"kind": k, "pos": "input", "form": "callable", "unsupported": True, "outcome": out, "exc": exc, "src": CALLABLE_NON_FUNCTION})
+        # ---- TLC ----
+        envs, metas = [], []
+        for sh, recs in zip(shards, grids):
+            p = os.path.join(d, "grid-%s.json" % sh[4])
+            with open(p, "w") as f:
+                json.dump({"kinds": sh[0], "depth": sh[1], "calldepth": sh[2], "cases": recs}, f, separators=(",", ":"))
+            envs.append({"CASES": p})
+            metas.append(("grid", sh, recs))
+        p = os.path.join(d, "extra.json")
         with open(p, "w") as f:
-            json.dump({"kinds": kinds, "positions": list(allpos), "cases": [{k: c[k] for k in ("kind", "pos", "unsupported", "outcome", "exc")} for c in cases]}, f)
-        r = tlc.run("Unsupported", CFG, {"CASES": p}, workers=1, timeout=600)
-        if r.error:
-            raise tlc.MachineryError("Unsupported: " + r.error[:2000])
-        if r.distinct != len(cases) + 1:
-            raise tlc.MachineryError("Unsupported evaluated %d of %d cases" % (r.distinct, len(cases) + 1))
-        for v in r.violations:
-            st = tlc.parse_state(v["states"][0])
-            for clause in st["bad"]:
-                if clause.startswith("MACHINERY"):
-                    raise tlc.MachineryError(clause)
-                c = cases[st["tid"] - 1]
-                rep.violation(clause, {"kind": c["kind"], "position": c["pos"], "src": c["src"]}, detail={"outcome": c["outcome"], "exc": c["exc"]},
-                              signature={"kind": c["kind"], "clause": clause})
+            json.dump({"kinds": [], "depth": 0, "calldepth": 0,
+                       "cases": [{k: c[k] for k in ("kind", "pos", "form", "unsupported", "outcome")} for c in extra]}, f)
+        envs.append({"CASES": p})
+        metas.append(("extra", None, extra))
+        results = tlc.run_shards("Unsupported", CFG, envs, jobs=args.jobs, workers=1, timeout=1800, heap="2g")
+        tlc.require_ok(results, "Unsupported")
+        states = gen = ncases = 0
+        for (what, sh, recs), r in zip(metas, results):
+            states += r.distinct
+            gen += r.generated
+            ncases += len(recs)
+            if r.distinct != len(recs) + 1:
+                raise tlc.MachineryError("Unsupported evaluated %d of %d cases" % (r.distinct, len(recs) + 1))
+            for v in r.violations:
+                st = tlc.parse_state(v["states"][0])
+                for clause in st["bad"]:
+                    if clause.startswith("MACHINERY"):
+                        raise tlc.MachineryError(clause + " (%s)" % (sh[4] if sh else "extra"))
+                    c = recs[st["tid"] - 1]
+                    if what == "grid":
+                        path = next(pp for pp in positions(sh[1]) if path_name(pp) == c["path"])
+                        src = build(path, SNIPPET[c["kind"]])
+                        rep.violation(clause, {"kind": c["kind"], "position": c["path"], "src": src}, detail={"outcomes": c["out"]},
+                                      signature={"kind": c["kind"], "clause": clause})
+                    else:
+                        rep.violation(clause, {"kind": c["kind"], "position": c["pos"], "src": c["src"]}, detail={"outcome": c["outcome"], "exc": c["exc"]},
+                                      signature={"kind": c["kind"], "clause": clause})
     finally:
         tlc.cleanup(d)
+    npos = len(positions(1))
+    ncall = sum(1 for recs in grids for r in recs if r["out"].get("callable") not in (None, "n/a"))
     rep.coverage.update({
-        "states": r.distinct, "transitions": r.generated, "traces_validated_against_impl": len(cases), "evaluations": len(cases),
-        "distinct_nontrivial": len(kinds) * len(allpos),
-        "rule": "every ast.stmt subclass of the running interpreter outside the supported set (%d kinds, nested FunctionDef included) at every structural position "
-                "(%d templates), two supported control programs and %d non-function inputs; TLC certifies that the recorded cases are exactly kinds x positions" % (len(kinds), len(allpos), len(NON_FUNCTION)),
-        "exhaustive": True, "exhaustive_scope": "statement kinds x position templates (a small finite model)",
-        "samples": [{"kind": c["kind"], "pos": c["pos"], "outcome": c["outcome"]} for c in cases[:3]],
+        "states": states, "transitions": gen, "traces_validated_against_impl": ncases, "evaluations": sum(len(r["out"]) for recs in grids for r in recs) + len(extra),
+        "distinct_nontrivial": len(kinds) * npos,
+        "function_object_form_cases": ncall,
+        "control_programs_refused": controls_refused,
+        "rule": "every ast.stmt subclass of the running interpreter outside the supported set (%d kinds, nested FunctionDef included) at every position of the "
+                "TLA+ position grammar Positions(1) (%d positions: suite of the function or of one compound context - if / else / elif / while / while-else / "
+                "for / for-else -, preceded by nothing / a simple statement / an if / a loop, optionally after a return / break / continue, followed by "
+                "nothing / a statement), handed over as source text, as AST list and%s as function object; thorough adds Positions(2) for Raise, With, "
+                "FunctionDef; plus %d named templates per kind, two supported control programs and %d non-function inputs (text, AST list, class object, "
+                "lambda). TLC certifies per kind that the recorded cases are exactly Kinds x Positions x Forms" % (
+                    len(kinds), npos, " (positions without compound context only)" if quick else "", len(POSITIONS), len(NON_FUNCTION) + 2),
+        "exhaustive": True, "exhaustive_scope": "statement kinds x Positions(1) x input forms (Unsupported.tla)",
+        "samples": [{"kind": r["kind"], "path": r["path"], "out": r["out"]} for recs in grids[:3] for r in recs[:1]],
     })
     return rep.finish()
